@@ -21,7 +21,7 @@ def check(run, args):
     st = json.load(open(stats))
     recs = run.validate_trace("Trace_Heap.tla", "Trace_Heap.cfg", trace_path=trace)
     tpath = os.path.join(d, "trace%d.ndjson" % (len(run.tlc_runs) - 1))
-    mine = [r for r in recs if r["prop"] == run.prop]
+    mine = [r for r in recs if r["prop"] in (run.prop, "CRASH")]
     run.drift += sum(1 for r in recs if r["prop"] == "DRIFT")
     firsts = {}
     for r in mine:
@@ -60,6 +60,6 @@ def replay(run, path):
     stats = os.path.join(run.scratch, "stats.json")
     run.harness_run(["heap", trace, stats, hf])
     recs = run.validate_trace("Trace_Heap.tla", "Trace_Heap.cfg", trace_path=trace)
-    mine = [r for r in recs if r["prop"] == run.prop]
+    mine = [r for r in recs if r["prop"] in (run.prop, "CRASH")]
     run.traces, run.evals, run.distinct = 1, len(v["ops"]), 2
     return run.finish([dict(prop=run.prop, key=r["key"], ops=v["ops"]) for r in mine])
